@@ -359,7 +359,13 @@ pub fn collect_for(prop: &'static str, blocks: &mut Vec<Block>, setup: &mut Repo
     }
     // depth 3 over the reduced alphabet
     let reps: Arc<Vec<usize>> = Arc::new((0..calls.len()).filter(|&i| calls[i].rep).collect());
-    let victims3: Arc<Vec<usize>> = Arc::new(if thorough() { victims.to_vec() } else { victims.iter().copied().filter(|&i| calls[i].rep).collect() });
+    // quick: the property's calls of the reduced alphabet; thorough: about 400 of the property's calls, evenly spaced
+    let victims3: Arc<Vec<usize>> = Arc::new(if thorough() {
+        let step = (victims.len() + 399) / 400;
+        victims.iter().copied().step_by(step.max(1)).collect()
+    } else {
+        victims.iter().copied().filter(|&i| calls[i].rep).collect()
+    });
     setup.count("history_reduced_alphabet", reps.len() as u64);
     setup.count("history_victims_depth3", victims3.len() as u64);
     let (mut from, chunk3) = (0usize, 8usize);
